@@ -44,7 +44,46 @@ def bin_obligations(chk):
             verify(chk, "binImgs[n=%d,rank%d]" % (n, rank), IP + ":binImgs", run, post, clause="bin",
                    replay=lambda m, n=n, rank=rank: {"n": n, "rank": rank, "H": num(m.eval(H, model_completion=True)), "W": num(m.eval(Wd, model_completion=True)), "B": num(m.eval(B, model_completion=True))},
                    encoding="unrolled strided accumulation (bin factor concrete, image and stack sizes symbolic)")
-    chk.bounded.append({"name": "binImgs bin factor", "bound": "n in %s (each proved for ALL image sizes H*n x W*n and stack depths); other n: native family only" % (BIN_FACTORS,), "result": "pass"})
+    # every bin factor at once: n symbolic (loop summaries over range(n) with the strided views data[..., i::n]; the slice lengths are
+    # fresh integers with their defining inequalities), the block sum as ONE Sigma term over the n x n box related to the code's
+    # nested sums by the Fubini rule
+    n = z3.Int("n")
+    for rank in (2, 3):
+        holder = {}
+
+        def run(it, rank=rank):
+            for a in (H >= 1, Wd >= 1, B >= 1, n >= 1):
+                it.ctx.assume(a)
+            d = sym_arr("data", ([B] if rank == 3 else []) + [H * n, Wd * n], prov={"data"})
+            holder["d"] = d
+            return it, it.call_repo(IP, "binImgs", [d, n])
+
+        def post(pr, rank=rank):
+            it, out = pr.value
+            d = holder["d"]
+            ok = isinstance(out, Arr) and out.ndim == rank
+            goals = [("rank", z3.BoolVal(ok))]
+            if not ok:
+                return goals
+            lead = [b] if rank == 3 else []
+            want_shape = ([B] if rank == 3 else []) + [H, Wd]
+            goals.append(("shape=data.shape/n", z3.And(*[zi(p) == q for p, q in zip(out.shape, want_shape)])))
+            inb = z3.And(r >= 0, r < H, c >= 0, c < Wd, *([b >= 0, b < B] if rank == 3 else []))
+            code = zr(out.get(lead + [r, c]))
+            spec = zr(npmodel.sigma(it, [(0, n), (0, n)], lambda idx: d.get(lead + [n * r + idx[0], n * c + idx[1]]), "block"))
+            sc, ss = sigma.find_sums(code), sigma.find_sums(spec)
+            shape_ok = len(sc) == 1 and len(ss) == 1
+            goals.append(("result-is-one-nested-sum-over-the-two-loops", z3.BoolVal(shape_ok)))
+            if not shape_ok:
+                return goals
+            o, h = sigma.fubini(it.ctx, ss[0], sc[0])
+            goals += [("block." + nm, z3.Implies(inb, f)) for nm, f in o]
+            goals.append(("out[...,r,c]=sum of the n x n block", z3.Implies(inb, code == spec), {"hyps": [h]}))
+            return goals
+        verify(chk, "binImgs[every n,rank%d]" % rank, IP + ":binImgs", run, post, clause="bin",
+               replay=lambda m, rank=rank: {"n": num(m.eval(n, model_completion=True)), "rank": rank, "H": num(m.eval(H, model_completion=True)), "W": num(m.eval(Wd, model_completion=True)), "B": num(m.eval(B, model_completion=True))},
+               encoding="loop summaries over range(n) with symbolic slice step, Sigma rule Fubini (bin factor, image and stack sizes all symbolic)")
+    chk.math_lemmas.append("total flux: sum of all n x n block sums of an (H n) x (W n) image = sum of the image (the blocks partition the index set; consequence of the block-sum clause)")
 
 
 def zoom_obligations(chk):
